@@ -164,6 +164,18 @@ def st_Assign(ip, s, st):
         st.assume(eval_spec(ip, st, st.env, constraint))
         ip.assumptions.add("abstract clause: local `%s` of %s havocked under: %s" % (name, ip.c.name, constraint))
         return [("next", st, None)]
+    if (ip.c is not None and len(s.targets) == 1 and isinstance(s.targets[0], ast.Name) and st.depth == 0
+            and s.targets[0].id in getattr(ip.c, "local_types", {}) and isinstance(s.value, ast.List) and not s.value.elts):
+        # `name = []` of a local with a declared element type: an empty list of symbolic-length kind (so that a loop
+        # can append to it); exactly the value python creates -- only its representation differs
+        from .interp import parse_type
+        head, args = parse_type(ip.c.local_types[s.targets[0].id])
+        if head != "Lst":
+            raise U("local_types: only Lst[...] is supported")
+        t = ip.reg.new(s.targets[0].id + "0", ip.lst_sort(args[0]))
+        st.assume(EQ(ip.reg.l_len(t), I(0)))
+        st.env[s.targets[0].id] = ip.new_cell(st, LstCell(t))
+        return [("next", st, None)]
     for s2, v in ip.ev(s.value, st):
         ok = True
         for t in s.targets:
@@ -596,13 +608,13 @@ def mutated_roots(ip, body_nodes):
                     elif isinstance(t, ast.Attribute):
                         roots.append(("field", t.value, t.attr))
                     elif isinstance(t, ast.Subscript):
-                        roots.append(("content", root_of(t), None))
+                        roots.append(("content", root_of(t), "del" if isinstance(n, ast.Delete) else None))
             elif isinstance(n, ast.ExceptHandler) and n.name:
                 names.add(n.name)
             elif isinstance(n, ast.Call):
                 f = n.func
                 if isinstance(f, ast.Attribute) and f.attr in MUTATORS_:
-                    roots.append(("content", root_of(f.value), None))
+                    roots.append(("content", root_of(f.value), f.attr))
                 if isinstance(f, ast.Attribute) and f.attr in ("fill", "reset", "request", "fill_into"):
                     elem_state = True
                 if isinstance(f, ast.Name) and f.id in ("next", "list", "tuple", "zip", "islice", "deque") and n.args:
@@ -670,6 +682,30 @@ def rebinds_same_constant(body_nodes, name, cur):
 
 MUTATORS_ = {"append", "extend", "pop", "insert", "update", "appendleft", "popleft", "clear", "remove", "sort",
              "reverse", "setdefault", "popitem"}
+LENGTH_CHANGING = {"append", "extend", "pop", "insert", "appendleft", "popleft", "clear", "remove", "del"}
+
+
+def other_refs(st, cid, but_name):
+    """is the heap cell `cid` referenced from anywhere but the local variable `but_name`?"""
+    def hit(v):
+        if isinstance(v, Ref):
+            return v.cid == cid
+        if isinstance(v, Tup):
+            return any(hit(x) for x in v.items)
+        return False
+    for n, v in st.env.items():
+        if n != but_name and hit(v):
+            return True
+    for c2, cell in st.heap.items():
+        if isinstance(cell, ObjCell) and any(hit(x) for x in cell.fields.values()):
+            return True
+        if isinstance(cell, PyListCell) and any(hit(x) for x in cell.items):
+            return True
+        if isinstance(cell, PyDictCell) and any(hit(x) for x in cell.items.values()):
+            return True
+        if isinstance(cell, IterCell) and (hit(getattr(cell, "live", None)) or hit(getattr(cell, "shared", None))):
+            return True
+    return False
 
 
 def havoc_loop(ip, node, h, spec, body_nodes):
@@ -694,11 +730,26 @@ def havoc_loop(ip, node, h, spec, body_nodes):
         if kind == "field":
             pending.append(("field", v, attr))
         elif kind == "content":
-            pending.append(("content", v, None))
+            pending.append(("content", v, (attr, e)))
         elif kind == "iter":
             if isinstance(v, Ref) and isinstance(h.heap[v.cid], IterCell):
                 pending.append(("content", v, None))
     done = set()
+    # a list of CONCRETE length (a display such as `xs = []`) whose length the body may change: its shape at the loop
+    # head is not the shape before the loop.  It must be given a symbolic-length type (LoopSpec.ghost = {"xs": "Lst[T]"}).
+    grows = {}
+    for kind, v, attr in pending:
+        if kind == "content" and isinstance(attr, tuple) and attr[0] in LENGTH_CHANGING and isinstance(v, Ref) \
+                and isinstance(h.heap[v.cid], PyListCell):
+            grows.setdefault(v.cid, attr[1])
+    for cid, e in grows.items():
+        if not (isinstance(e, ast.Name) and e.id in spec.ghost and spec.ghost[e.id].startswith("Lst[")):
+            raise U("the loop body changes the length of a list of concrete length (%s): declare it as Lst[...] in "
+                    "Contract.local_types (or LoopSpec.ghost)" % (ast.unparse(e) if hasattr(ast, "unparse") else "list"))
+        if other_refs(h, cid, e.id):
+            raise U("the loop body changes the length of the concrete list `%s`, which is also reachable otherwise" % e.id)
+        h.env[e.id] = ip.make(spec.ghost[e.id], e.id, h)
+        done.add((cid, ()))
     for kind, v, attr in pending:
         if kind == "field":
             if isinstance(v, Ref) and isinstance(h.heap[v.cid], ObjCell):
